@@ -272,6 +272,9 @@ class _TraceMixin:
 
     def _after_timer(self, delay_sec, event, owner_id):
         self._ctl.emit("arm", owner_id, event.type)
+        vctl = CURRENT.get("vctl")
+        if vctl is not None:       # sync engine under virtual time: label the timer thread about to be started
+            vctl.pending_info = (owner_id, event.type)
         r = super()._after_timer(delay_sec, event, owner_id)
         tm = getattr(self, "task_manager", None)
         if tm is not None:
